@@ -254,6 +254,41 @@ func genSoundCase(r *gen.Rand) *soundCase {
 		sc.Mount = &soundMount{Prefix: gen.Pick(r, []string{"/", "/", "/m", "/Mnt", "/m/"}), SubCaseSensitive: r.Bool(), SubStrict: r.Bool(),
 			ConsOn: gen.Pick(r, []string{"parent", "sub", "both"}), Interleaved: r.Bool()}
 		sc.RegPat = sc.Pat
+		if r.Chance(1, 4) {
+			// a mount prefix with a greedy parameter of its own: the greedy parameters of the
+			// mounted route are numbered on behind it (*1 *2, +1 +2)
+			g := tok{Kind: tPlus}
+			if r.Bool() {
+				g = tok{Kind: tStar}
+			}
+			pre := []tok{{Kind: tLit, Lit: gen.Pick(r, []string{"/t/", "/w/"})}, g}
+			sc.Mount.Prefix = pattern{Toks: pre}.String()
+			if r.Bool() {
+				sc.Mount.Prefix += "/api"
+				pre = append(pre, tok{Kind: tLit, Lit: "/api"})
+			}
+			vals := []string{"a", "acme", "x1", "a/b"}
+			var eff []tok
+			var good, bad, odd [][]string
+			for _, t := range pre {
+				eff = append(eff, t)
+				if t.Kind == tLit {
+					good, bad, odd = append(good, nil), append(bad, nil), append(odd, nil)
+				} else {
+					good, bad, odd = append(good, vals), append(bad, nil), append(odd, nil)
+				}
+			}
+			rest := append([]tok(nil), toks...)
+			if eff[len(eff)-1].Kind == tLit {
+				// the prefix's last literal and the pattern's first one are one literal
+				eff[len(eff)-1].Lit += rest[0].Lit
+				rest = rest[1:]
+				sc.good, sc.bad, sc.odd = sc.good[1:], sc.bad[1:], sc.odd[1:]
+			}
+			sc.Pat = pattern{Toks: append(eff, rest...)}
+			sc.good, sc.bad, sc.odd = append(good, sc.good...), append(bad, sc.bad...), append(odd, sc.odd...)
+			return sc
+		}
 		eff := append([]tok(nil), toks...)
 		eff[0].Lit = strings.TrimRight(sc.Mount.Prefix, "/") + eff[0].Lit
 		sc.Pat = pattern{Toks: eff}
@@ -311,8 +346,10 @@ type soundObs struct {
 	path   string
 	route  string
 	nCalls int
-	rot    int  // where the handler starts reading its parameters
-	mwRan  bool // the middleware sharing a parameter name ran (and read that parameter)
+	// the route's parameters read through c.Route().Params: names and values
+	rpNames, rpVals []string
+	rot             int  // where the handler starts reading its parameters
+	mwRan           bool // the middleware sharing a parameter name ran (and read that parameter)
 }
 
 func runSound(e *ev.Env) {
@@ -338,6 +375,10 @@ func runSound(e *ev.Env) {
 			sc.odd = [][]string{nil, nil, nil}
 			checkSound(e, c, sc, []string{"/b2022", "/b2022-x", "/b2022-01-01", "/b2022-01-01-x"})
 		}
+	})
+	e.Cases("long", e.N(150, 3000), func(c *ev.Case) {
+		sc, paths := genLongSoundCase(c.R)
+		checkSound(e, c, sc, paths)
 	})
 	e.Cases("patterns", e.N(30000, 600000), func(c *ev.Case) {
 		r := c.R
@@ -441,6 +482,38 @@ func runSound(e *ev.Env) {
 	})
 }
 
+// genLongSoundCase: a route handler under a pattern with 29 or 30 named parameters (30 is the
+// most a request context holds), separated by '/', '-' or '.'.
+func genLongSoundCase(r *gen.Rand) (*soundCase, []string) {
+	sc := &soundCase{Cfg: Cfg{CaseSensitive: r.Bool(), Strict: r.Bool(), Unescape: r.Chance(1, 3), CustomCtx: r.Chance(1, 3)}}
+	en := gen.Pick(r, handlerEntries)
+	sc.Entry, sc.Method = en.Name, gen.Pick(r, en.Methods)
+	n := gen.Pick(r, []int{29, 30, 30})
+	vals := []string{"a", "ab", "x1", "Q", "zz9"}
+	toks := []tok{{Kind: tLit, Lit: "/"}}
+	sc.good, sc.bad, sc.odd = [][]string{nil}, [][]string{nil}, [][]string{nil}
+	for i := 0; i < n; i++ {
+		toks = append(toks, tok{Kind: tNamed, Name: fmt.Sprintf("p%d", i+1)})
+		sc.good, sc.bad, sc.odd = append(sc.good, vals), append(sc.bad, nil), append(sc.odd, nil)
+		if i < n-1 {
+			toks = append(toks, tok{Kind: tLit, Lit: gen.Pick(r, []string{"/", "/", "-", "."})})
+			sc.good, sc.bad, sc.odd = append(sc.good, nil), append(sc.bad, nil), append(sc.odd, nil)
+		}
+	}
+	sc.Pat = pattern{Toks: toks}
+	var paths []string
+	for k := 0; k < 6; k++ {
+		vs := make([]string, len(toks))
+		for i, t := range toks {
+			if t.Kind != tLit {
+				vs[i] = gen.Pick(r, vals)
+			}
+		}
+		paths = append(paths, sc.Pat.fill(vs))
+	}
+	return sc, paths
+}
+
 func checkSound(e *ev.Env, c *ev.Case, sc *soundCase, paths []string) {
 	if sc.Entry == "" { // corpus cases
 		sc.Entry = "get"
@@ -529,6 +602,10 @@ func checkSound(e *ev.Env, c *ev.Case, sc *soundCase, paths []string) {
 			if k := keys[(j+obs.rot)%len(keys)]; k != "" {
 				obs.vals[k] = strings.Clone(cx.Params(k))
 			}
+		}
+		for _, n := range cx.Route().Params {
+			obs.rpNames = append(obs.rpNames, n)
+			obs.rpVals = append(obs.rpVals, strings.Clone(cx.Params(n)))
 		}
 		obs.path = strings.Clone(cx.Path())
 		obs.route = cx.Route().Path
@@ -664,6 +741,34 @@ func checkSound(e *ev.Env, c *ev.Case, sc *soundCase, paths []string) {
 		}
 		if bad {
 			continue
+		}
+		// the same values are reported under the names c.Route().Params lists, in pattern order
+		{
+			j, differs := 0, ""
+			for i, k := range keys {
+				if k == "" {
+					continue
+				}
+				if j >= len(obs.rpVals) {
+					differs = fmt.Sprintf("Route().Params lists %d names %q, the pattern has more parameters", len(obs.rpNames), obs.rpNames)
+					break
+				}
+				if obs.rpVals[j] != vals[i] {
+					differs = fmt.Sprintf("parameter %d: Params(%q)=%q, but Params(Route().Params[%d]=%q)=%q", j+1, k, vals[i], j, obs.rpNames[j], obs.rpVals[j])
+					break
+				}
+				j++
+			}
+			if differs == "" && j != len(obs.rpVals) {
+				differs = fmt.Sprintf("Route().Params lists %d names %q, the pattern has %d parameters", len(obs.rpNames), obs.rpNames, j)
+			}
+			if differs != "" {
+				d := detail()
+				d["route_params_names"] = obs.rpNames
+				d["values_read_through_route_params"] = obs.rpVals
+				e.Violation(c, "sound|values-read-through-route-params-differ|"+class, differs, d)
+				continue
+			}
 		}
 		// (a) reconstruction; with UnescapePath the request path is the decoded one the handler sees
 		reqPath := p
